@@ -50,6 +50,8 @@ Variable cls_of : N -> cls.
 Variables attr_body attr_value attr_output attr_argument : N -> option N.
 Variable strip_parens : N -> N.                      (* _strip_parentheses *)
 Variable supports_callee : N -> bool.                (* _supports_attrset_argument(call.name), as a function of the call *)
+Variable attr_name : N -> option N.                  (* call.name; None when it is a str *)
+Variable is_select : N -> bool.                      (* isinstance(x, Select) *)
 Variable scopes_for_owner : N -> store -> res SC.    (* reads the store; the chain of a `with` owner resolves its environment and may raise *)
 Variable set_ctx : N -> SC -> store -> store.        (* set_resolution_context *)
 Variable attach_ctx : N -> N -> store -> store.      (* attach_resolution_context(body, owner=owner) *)
@@ -108,6 +110,31 @@ Definition resolve_target_set (fuel : nat) (expressions : list N) : M N :=
   end.
 '''
 
+STRIP_SRC = '''while isinstance(expression, Parenthesis):
+    expression = expression.value
+return expression'''
+STRIP_COQ = '''(* GENERATED (frame matched literally) from cli/manipulations.py:_strip_parentheses; a parenthesis without a value does not exist (required field): RErrO *)
+Fixpoint strip_parentheses (fuel : nat) (expression : N) : res N :=
+  match fuel with O => RFuel | S f =>
+    if is_cls expression CParen then match attr_value expression with Some v => strip_parentheses f v | None => RErrO end else RVal expression end.
+'''
+SUPPORTS_SRC = '''while True:
+    if isinstance(callee, str):
+        return True
+    callee = _strip_parentheses(callee)
+    if isinstance(callee, FunctionCall):
+        callee = callee.name
+        continue
+    return isinstance(callee, (FunctionDefinition, Identifier, Select))'''
+SUPPORTS_COQ = '''(* GENERATED (frame matched literally) from cli/manipulations.py:_supports_attrset_argument; the callee is None when it is a str *)
+Fixpoint supports_attrset_argument (fuel : nat) (callee : option N) : res bool :=
+  match fuel with O => RFuel | S f =>
+    match callee with None => RVal true | Some c =>
+      match strip_parentheses f c with
+      | RVal c1 => if is_cls c1 CCall then supports_attrset_argument f (attr_name c1) else RVal (is_cls c1 CFunDef || is_cls c1 CIdent || is_select c1)
+      | RErrV => RErrV | RErrO => RErrO | RFuel => RFuel
+      end end end.
+'''
 def body_of(f): return [s for s in f.body if not (isinstance(s, ast.Expr) and isinstance(s.value, ast.Constant))]
 def src_of(stmts): return '\n'.join(ast.unparse(s) for s in stmts)
 def terminates(stmts): return bool(stmts) and isinstance(stmts[-1], (ast.Return, ast.Raise))
@@ -387,6 +414,8 @@ def main(repo):
     out.append(guarded('_resolve_identifier_target', lambda: gen_literal(tree, '_resolve_identifier_target', IDENT_TARGET_SRC, IDENT_TARGET_COQ)))
     out.append('(* GENERATED from cli/manipulations.py:_resolve_target_set_from_expr *)\n' + guarded('_resolve_target_set_from_expr', lambda: gen_main(tree, repo)))
     out.append(guarded('_resolve_target_set', lambda: gen_literal(tree, '_resolve_target_set', TOP_SRC, TOP_COQ)))
+    out.append(guarded('_strip_parentheses', lambda: gen_literal(tree, '_strip_parentheses', STRIP_SRC, STRIP_COQ)))
+    out.append(guarded('_supports_attrset_argument', lambda: gen_literal(tree, '_supports_attrset_argument', SUPPORTS_SRC, SUPPORTS_COQ)))
     out.append('End Target.\n')
     return '\n'.join(out)
 if __name__ == '__main__': print(main(sys.argv[1]))
